@@ -28,7 +28,8 @@ CHECKS = {
             "at the end must equal the brute-force solution set computed by TLC, for every configuration and posting "
             "order sampled. The public entry points are compared on the same problems (spec/ApiTrace.tla): the "
             "iterator, its arrays kept by reference until the end, find_all(), solve_all(callback) and the "
-            "multiprocessing solver's find_all().", TRUST_ENGINE, TECH_ENGINE),
+            "multiprocessing solver's find_all(). A sample of the corpus is also run by the COMPILED engine and must "
+            "deliver exactly what the validated interpreted run delivered (spec/CompiledTrace.tla).", TRUST_ENGINE, TECH_ENGINE),
     "C03": ("model_checking", "Optimisation traces (restart loop: incumbent, reset, tighten) replayed through NucsAbs: "
             "incumbents improve strictly, tightening keeps every better solution, the result is feasible and equals "
             "the brute-force optimum, None iff infeasible. Distributed optimisation: real splits and synthetic reducer "
